@@ -278,15 +278,16 @@ def json_findings(doc):
 digest = hashlib.sha256()
 sel = peers()
 sel = sel[:4] + sel[-3:] + random_peers(count=(3 if TIER == 'quick' else 30))
-for pi, p in enumerate(sel):
+sel2 = [(pi, p, role) for pi, p in enumerate(sel) for role in (('server', 'client') if ('cli_enc' in p or pi %% 3 == 0) else ('server',))]
+for pi, p, role in sel2:
     def run(**kw):
-        kex = H.make_kex(p['kex'], p['key'], p['enc'], p['mac'])
-        return H.run_output(kex=kex, **kw)
+        kex = H.make_kex(p['kex'], p['key'], p['enc'], p['mac'], cli_enc=p.get('cli_enc'), cli_mac=p.get('cli_mac'))
+        return H.run_output(kex=kex, client_host=('10.1.2.3' if role == 'client' else None), **kw)
     cases += 1
     base_status, base_text = run()
     base = findings_set(base_text)
     digest.update(base_text.encode())
-    inp = {'peer': pi}
+    inp = {'peer': pi, 'role': role}
     for name, kw in (('batch', dict(batch=True)), ('verbose', dict(verbose=True)), ('colors', dict(colors=True)), ('batch+verbose', dict(batch=True, verbose=True))):
         cases += 1
         st_, tx = run(**kw)
@@ -333,6 +334,41 @@ for pi, p in enumerate(sel):
             # first-line logic: a hidden first line moves the name to the next shown line; compare (cat, name, level, note) sets
             if [x for x in fl if x not in findings_set(t0)]:
                 fail(dict(inp, level=lvl, options=extra), [x for x in fl if x not in findings_set(t0)][:3], 'no new findings', 'level-alters')
+# SSH-1 peers: the status is the same in every rendering (text modes and JSON)
+for cm, am in ((0x48, 0x24), (0, 0), (0x7f, 0x7f), (0x08, 0x04), (0x04, 0x08)):
+    cases += 1
+    sts = {}
+    for name, kw in (('plain', {}), ('batch', dict(batch=True)), ('verbose', dict(verbose=True)), ('json', dict(json_out=True)), ('json-indent', dict(json_out=True, json_indent=True))):
+        try:
+            sts[name] = H.run_output(pkm=H.make_pkm(cm, am), banner='SSH-1.5-OpenSSH_1.2.3', **kw)[0]
+        except Exception as e:
+            sts[name] = 'exception %%r' %% (e,)
+    if len(set(map(str, sts.values()))) != 1:
+        fail({'ssh1 cipher mask': cm, 'auth mask': am}, sts, 'one status in every rendering', 'ssh1-status')
+# multi-target JSON is one well-formed document whatever the completion order and even when a target is listed twice
+sys.path.insert(0, %(native)r)
+import fakenet as F, tempfile
+def msrv(delay=None):
+    sv = F.Server(['curve25519-sha256'], ['ssh-ed25519'], ['aes128-ctr'], ['hmac-sha2-256'], hostkeys={'ssh-ed25519': F.ed25519_blob()})
+    if delay:
+        sv.delays = {0: delay}
+    return sv
+for lines, slow, threads in ((['a.test', 'b.test'], 'a.test', 2), (['a.test', 'b.test', 'c.test'], 'c.test', 3), (['a.test', 'b.test', 'a.test'], None, 1), (['a.test', 'b.test', 'a.test'], 'b.test', 2),
+                             (['a.test', 'b.test', 'c.test'], 'a.test', 2)):
+    for flag in ('-j', '-jj'):
+        cases += 1
+        f = tempfile.NamedTemporaryFile('w', suffix='.txt', delete=False); f.write(''.join(h + '\n' for h in lines)); f.close()
+        try:
+            net = F.FakeNet({h: msrv(0.4 if h == slow else None) for h in set(lines)})
+            st, out = F.run_main(['-n', flag, '--skip-rate-test', '-T', f.name, '--threads', str(threads)], net)
+        finally:
+            os.unlink(f.name)
+        try:
+            arr = json.loads(out)
+            if not isinstance(arr, list) or len(arr) != len(lines):
+                fail({'targets': lines, 'slow': slow, 'threads': threads, 'flag': flag}, {'elements': len(arr) if isinstance(arr, list) else None}, len(lines), 'multi-target-json-elements')
+        except Exception as e:
+            fail({'targets': lines, 'slow': slow, 'threads': threads, 'flag': flag}, out[-80:], 'one well-formed JSON array', 'multi-target-json')
 # byte-identical repeated audits, including under different hash seeds (a peer whose report carries a note listing several algorithms included)
 cases += 1
 STRICT = dict(kex=['curve25519-sha256', 'kex-strict-s-v00@openssh.com'], key=['ssh-ed25519'], enc=['chacha20-poly1305@openssh.com', 'aes256-cbc', 'aes128-cbc', '3des-cbc', 'aes128-ctr'],
